@@ -207,11 +207,76 @@ class Path(object):
         self.decisions = list(prefix)
         self.pos = 0
         self.pc = []
-        self.solver = z3.Solver()
-        self.solver.set("timeout", timeout_ms)
+        self.solver = _DualSolver(timeout_ms)
         self.trace = []
         self.notes = {}
         self.forks = []
+
+
+def _has_quantifier(expr):
+    seen, stack = set(), [expr]
+    while stack:
+        x = stack.pop()
+        if x.get_id() in seen:
+            continue
+        seen.add(x.get_id())
+        if z3.is_quantifier(x):
+            return True
+        stack.extend(x.children())
+    return False
+
+
+class _DualSolver(object):
+    """The path condition in two solvers: `full` (everything) decides obligations; `qf` holds only the
+    quantifier-free conjuncts and answers branch-feasibility probes (an over-approximation of
+    feasibility: exploring an infeasible branch is sound, it only adds vacuous obligations)."""
+
+    def __init__(self, timeout_ms):
+        self.full = z3.Solver()
+        self.full.set("timeout", timeout_ms)
+        self.qf = z3.Solver()
+        self.qf.set("timeout", min(timeout_ms, 3000))
+        self.n_quantified = 0
+
+    def add(self, *cs):
+        for c in cs:
+            self.full.add(c)
+            if _has_quantifier(c):
+                self.n_quantified += 1
+            else:
+                self.qf.add(c)
+
+    def set(self, *a, **k):
+        self.full.set(*a, **k)
+
+    def push(self):
+        self.full.push()
+
+    def pop(self):
+        self.full.pop()
+
+    def check(self):
+        return self.full.check()
+
+    def model(self):
+        return self.full.model()
+
+    def reason_unknown(self):
+        return self.full.reason_unknown()
+
+    def assertions(self):
+        return self.full.assertions()
+
+    def probe(self, extra):
+        if not self.n_quantified:
+            return None
+        self.qf.push()
+        for e in extra:
+            if not _has_quantifier(e):
+                self.qf.add(e)
+        r = self.qf.check()
+        self.qf.pop()
+        return r
 
 
 class ObligationResult(object):
@@ -254,6 +319,8 @@ class Engine(object):
         self.overrides = {}
         self.prop_overrides = {}
         self.timeout_ms = timeout_ms
+        # feasibility probes of branches get a short budget: `unknown` means "explore the branch"
+        self.feasibility_timeout_ms = min(timeout_ms, 1500)
         self.keep_smt2 = keep_smt2
         self.path = None
         self.results = []
@@ -297,9 +364,26 @@ class Engine(object):
         return outs
 
     # ---------------------------------------------------------------- solver plumbing
-    def _check(self, *extra):
+    def _check(self, *extra, **kw):
         t0 = time.time()
         s = self.path.solver
+        if kw.get("feasibility"):
+            r = s.probe(extra)
+            if r is not None:
+                self.solver_time += time.time() - t0
+                self.solver_calls += 1
+                # unsat of the quantifier-free part is definite; anything else: explore the branch
+                return (r if r == z3.unsat else z3.unknown), None, None
+        quick = False
+        if quick:
+            s.set("timeout", self.feasibility_timeout_ms)
+        try:
+            return self._check_inner(s, extra, t0)
+        finally:
+            if quick:
+                s.set("timeout", self.timeout_ms)
+
+    def _check_inner(self, s, extra, t0):
         s.push()
         for e in extra:
             s.add(e)
@@ -342,8 +426,8 @@ class Engine(object):
         if p.pos < len(p.decisions):
             d = p.decisions[p.pos]
         else:
-            rt, _, _ = self._check(c)
-            rf, _, _ = self._check(z3.Not(c))
+            rt, _, _ = self._check(c, feasibility=True)
+            rf, _, _ = self._check(z3.Not(c), feasibility=True)
             t_ok = rt != z3.unsat
             f_ok = rf != z3.unsat
             if t_ok and f_ok:
@@ -375,7 +459,7 @@ class Engine(object):
                 if feasible is None:
                     opts.append(i)
                 else:
-                    r, _, _ = self._check(feasible(i))
+                    r, _, _ = self._check(feasible(i), feasibility=True)
                     if r != z3.unsat:
                         opts.append(i)
             if not opts:
